@@ -110,7 +110,7 @@ func isVal(i int) bool { return i >= 0 && i < nVals }
 
 var drivenKinds = []string{
 	"skyway.MsgSendToPalomaClaim", "skyway.MsgBatchSendToRemoteClaim", "skyway.MsgLightNodeSaleClaim",
-	"skyway.MsgConfirmBatch", "skyway.MsgEstimateBatchGas", "skyway.MsgSetERC20MappingProposal", "skyway.MsgNonceOverrideProposal",
+	"skyway.MsgConfirmBatch", "skyway.MsgConfirmBatch", "skyway.MsgEstimateBatchGas", "skyway.MsgSetERC20MappingProposal", "skyway.MsgNonceOverrideProposal",
 	"skyway.MsgSendToRemote",
 	"treasury.MsgUpsertRelayerFee", "valset.MsgKeepAlive",
 	"evm.MsgRemoveSmartContractDeploymentRequest", "evm.MsgProposeNewReferenceBlockAttestation",
